@@ -341,6 +341,40 @@ def leg_warnings(ns, res, spec):
             count += 1
             if count % 211 == 1:
                 res.sample({'leg': 'warnings', 'text': text, 'query': query_kind, 'warnings': warnings, 'expected': [list(x) for x in exp]})
+    # the header line is output too: a column name holding the output delimiter under the simple policy must be reported
+    for rep in range(spec['n'] * 2):
+        names = [rng.choice(['k', 'unit;price', 'a b', 'v;w', 'n']) for _ in range(2)]
+        if names[0] == names[1]:
+            names[1] += '2'
+        rows = [[rng.choice(['x', 'y', 'p;q', 'z']), rng.choice(['1', '2'])] for _ in range(rng.randrange(1, 4))]
+        text = refcsv.write_table([names] + rows, ',', 'quoted', '\n')
+        out_delim = rng.choice([';', ' ', '\t'])
+        qtext = rng.choice(['select *', 'select a2, a1', 'update a2 = "u"', 'select a1 where NR < 0', 'select a1 order by a2 WITH (header)'])
+        warnings = []
+        err = None
+        try:
+            it = ns.csv.CSVRecordIterator(io.BytesIO(text.encode('utf-8')), 'utf-8', ',', 'quoted', has_header=True)
+            w = ns.csv.CSVWriter(io.BytesIO(), False, 'utf-8', out_delim, 'simple')
+            ns.rbql.query(qtext, it, w, warnings)
+        except Exception as e:
+            err = util.error_class(e)
+        res.evaluations += 1
+        res.count('header_separator_runs')
+        res.nontrivial('hdrsep', text, qtext, out_delim)
+        # which cells reach the output: header names of the selected columns + the selected data cells
+        if qtext.startswith('select a2, a1'):
+            out_cells = [names[1], names[0]] + [c for r in rows for c in (r[1], r[0])]
+        elif qtext.startswith('select a1'):
+            out_cells = [names[0]] + ([] if 'NR < 0' in qtext else [r[0] for r in rows])
+        elif qtext.startswith('update'):
+            out_cells = names + [c for r in rows for c in (r[0], 'u')]
+        else:
+            out_cells = names + [c for r in rows for c in r]
+        expect_sep = any(out_delim in c for c in out_cells)
+        got_sep = 'sep' in util.warning_kinds(warnings)
+        if err is not None or got_sep != expect_sep:
+            res.violation('py:separator-warning-not-iff-with-header', '[py] CSV %r with header, %r, simple output with delimiter %r: warnings %r (error %r), separator warning expected: %s' % (text, qtext, out_delim, warnings, err, expect_sep),
+                          {'leg': 'warnings-header', 'text': text, 'query_text': qtext, 'out_delim': out_delim})
     # list front-end: TableIterator's field-count warning
     for _ in range(spec['n'] * 4):
         A = [['x'] * rng.choice([1, 2, 2, 3]) for _ in range(rng.randrange(1, 7))]
@@ -379,7 +413,7 @@ def summarize(tier, seed, m):
     return {
         'rule': 'fault enumeration: one (and two: the first must be named) poisoned record at every position k of tables of 1..6 records x 13 clause placements (SELECT, WHERE, ORDER BY key, GROUP BY key, aggregate argument, aggregate over a failing expression, UPDATE right-hand side, UPDATE target beyond the record, JOIN key on A, JOIN key on B, missing field under .upper() in SELECT / WHERE, UNNEST list) with poison kinds non-numeric cell under int() / numeric aggregate, missing field, missing join key; %d statically detectable mistakes x 6 spelling / header variants (parsing error, zero records written); an invalid byte sequence at every offset of a UTF-8 file x 7 sequences x 3 chunk sizes, header / column-list inconsistencies, defective quoted_rfc quoting (IO-handling error); every subset of the anomalies {ragged, malformed quote, separator in simple output, BOM} (+ None from short records) on header-less full-scan queries with the exact iff and the cited record numbers. distinct_nontrivial counts enumerated scenarios.' % len(PARSING_QUERIES),
         'exhaustive': True,
-        'required': ['poison_runs', 'parsing_runs', 'bad_byte_runs', 'inconsistent_input_runs', 'warning_runs', 'list_warning_runs', 'field_name_checks', 'no_write_before_parsing_error_checks', 'js_cases',
+        'required': ['header_separator_runs', 'poison_runs', 'parsing_runs', 'bad_byte_runs', 'inconsistent_input_runs', 'warning_runs', 'list_warning_runs', 'field_name_checks', 'no_write_before_parsing_error_checks', 'js_cases',
                      'warning_iff:bom:present', 'warning_iff:fields:present', 'warning_iff:none:present', 'warning_iff:quote:present', 'warning_iff:sep:present'] + ['poison:' + c for c in CLAUSES],
         'assumptions': ['poison scenarios carry no TOP/LIMIT bound (see C02: the record behind the bound may or may not be evaluated)', 'error texts are never compared: class + record number (tolerant pattern) + field name'],
     }
